@@ -76,4 +76,13 @@ def manifest():
     }
 
 
-HOOK_COMMITS = []
+def _hook_commits():
+    import subprocess
+    try:
+        out = subprocess.run(["git", "-C", "/repo", "log", "--format=%h %s"], capture_output=True, text=True).stdout
+        return [l.split()[0] for l in out.splitlines() if l.split(" ", 1)[1].startswith("verif:")]
+    except Exception:
+        return []
+
+
+HOOK_COMMITS = _hook_commits()
